@@ -670,10 +670,22 @@ func (w *world) run() {
 		for i := range perm {
 			perm[i] = i
 		}
-		ord := c.Sub("bigstateless.order")
-		for i := w.n - 1; i > 0; i-- {
-			j := ord.Intn(i + 1)
-			perm[i], perm[j] = perm[j], perm[i]
+		switch c.Choose(3, "bigstateless.shape") {
+		case 0: // seeded random set and order
+			ord := c.Sub("bigstateless.order")
+			for i := w.n - 1; i > 0; i-- {
+				j := ord.Intn(i + 1)
+				perm[i], perm[j] = perm[j], perm[i]
+			}
+		case 1: // the highest indices, top down (large factors in every limb of the Lagrange code)
+			for i := range perm {
+				perm[i] = w.n - 1 - i
+			}
+		default: // a contiguous window of indices starting anywhere (wrapping)
+			start := c.Choose(w.n, "bigstateless.start")
+			for i := range perm {
+				perm[i] = (start + i) % w.n
+			}
 		}
 		col := &collector{id: 90, mode: 3}
 		for _, i := range perm[:k] {
